@@ -119,6 +119,9 @@ func (x *Exec) evalInt(env *Env, e Expr) string {
 // backingT is the pseudo struct type of slice backing stores (so that ghost fields can be attached to them).
 var backingT = types.NewNamed(types.NewTypeName(0, nil, "backing", nil), types.NewStruct(nil, nil), nil)
 
+// maprefT is the pseudo struct type of map objects (so that ghost fields, e.g. an owner, can be attached to them).
+var maprefT = types.NewNamed(types.NewTypeName(0, nil, "mapref", nil), types.NewStruct(nil, nil), nil)
+
 // worldT is the pseudo struct type of the single ghost object `world` that carries ghost state which belongs
 // to no Go object (abstract views of durable state, registries seen through interfaces).
 var worldT = types.NewNamed(types.NewTypeName(0, nil, "world", nil), types.NewStruct(nil, nil), nil)
@@ -524,6 +527,10 @@ func (x *Exec) seqEq(a, b SQ) string {
 	return and(eq(a.L, b.L), renderForall(body, []string{q}, []string{"(" + q + " Int)"}))
 }
 
+// altVariant maps a universally quantified formula to its equivalent change-of-variable variant
+// (same formula, other triggers).  As hypotheses both are asserted; as a goal either one suffices.
+var altVariant = map[string]string{}
+
 // renderForall renders a universally quantified body with inferred triggers (both variants, see quant).
 func renderForall(body string, names, decl []string) string {
 	render := func(body string, decl []string, trigs [][]string) string {
@@ -539,10 +546,12 @@ func renderForall(body string, names, decl []string) string {
 	b1, _, d1, t1 := autoTrigger(body, append([]string(nil), names...), append([]string(nil), decl...), false)
 	out := render(b1, d1, t1)
 	if b2, _, d2, t2 := autoTrigger(body, append([]string(nil), names...), append([]string(nil), decl...), true); b2 != b1 && len(t2) > 0 {
+		v2 := render(b2, d2, t2)
 		if len(t1) == 0 {
-			out = render(b2, d2, t2)
+			out = v2
 		} else {
-			out = and(out, render(b2, d2, t2))
+			altVariant[out] = v2
+			out = and(out, v2)
 		}
 	}
 	return out
@@ -596,6 +605,11 @@ func (e *Env) call(c *CallE) Val {
 		x.reg.declare(na, "(Array Int "+sortOf(sq.Elem.Go)+")")
 		e.st.assume(fmt.Sprintf("(forall ((j Int)) (! (= (select %s j) (ite (< j %s) (select %s (+ %s j)) (select %s (+ %s j 1)))) :pattern ((select %s j))))", na, p, sq.A, sq.O, sq.A, sq.O, na))
 		return SQ{na, "0", sub(sq.L, "1"), sq.Elem}
+	case "mapref":
+		if v, ok := e.eval(c.Args[0]).(TV); ok && isMap(v.Ty) {
+			return TV{v.T, types.NewPointer(maprefT)}
+		}
+		e.errf("mapref needs a map")
 	case "zero":
 		t := x.P.resolveType(c.Args[0], e.tctx)
 		return x.zeroVal(t.Go)
@@ -731,6 +745,9 @@ func (e *Env) callPure(pf *PureFunc, c *CallE) Val {
 	for _, a := range c.Args {
 		args = append(args, e.eval(a))
 	}
+	if pf.Body != nil && pf.Opaque {
+		return e.callOpaque(pf, args)
+	}
 	if pf.Body != nil {
 		ne := *e
 		ne.depth = e.depth + 1
@@ -826,6 +843,98 @@ func (x *Exec) installAxioms() {
 			x.reg.axiom("|alloc@0|", fmt.Sprintf("%s#%d", ax.Label, i), t)
 		}
 	}
+}
+
+// callOpaque: P_k(args), where k identifies the versions of the heap arrays the body reads in the
+// current state; the definitional axiom forall args. P_k(args) <=> body is attached to the symbol.
+func (e *Env) callOpaque(pf *PureFunc, args []Val) Val {
+	x := e.x
+	if x.opReads == nil {
+		x.opReads, x.opSyms = map[string][]string{}, map[string]string{}
+	}
+	var argTerms []string
+	var sorts []string
+	tkey := pf.Pkg + "." + pf.Name
+	for _, a := range args {
+		tv, ok := a.(TV)
+		if !ok {
+			e.errf("opaque spec function %s: scalar arguments only", pf.Name)
+		}
+		argTerms = append(argTerms, tv.T)
+		sorts = append(sorts, sortOf(tv.Ty))
+		tkey += "|" + typeKey(tv.Ty)
+	}
+	evalBody := func(env *Env, bound []Val) string {
+		ne := *env
+		ne.depth = env.depth + 1
+		ne.names = map[string]Val{}
+		ne.frame = nil
+		ne.entryNames = nil
+		ne.st = nil
+		ne.tctx = x.P.typeCtxForPkg(pf.Pkg, env.tctx)
+		tb := map[string]types.Type{}
+		for i, p := range pf.Params {
+			bindTypeVars(p.Ty, valType(bound[i]), tb)
+			ne.names[p.Name] = bound[i]
+		}
+		if len(tb) > 0 {
+			nt := *ne.tctx
+			nt.targs = map[string]types.Type{}
+			for k, v := range ne.tctx.targs {
+				nt.targs[k] = v
+			}
+			for k, v := range tb {
+				if _, ok := nt.targs[k]; !ok {
+					nt.targs[k] = v
+				}
+			}
+			if len(nt.tlist) == 0 && len(tb) == 1 {
+				for _, v := range tb {
+					nt.tlist = []types.Type{v}
+				}
+			}
+			ne.tctx = &nt
+		}
+		ne.qv = nil
+		ne.inQuant = 1
+		return x.evalBool(&ne, pf.Body)
+	}
+	// formal parameters as bound variables
+	var formals []Val
+	var decl []string
+	for i, a := range args {
+		x.P.qcount++
+		n := fmt.Sprintf("%s!%d", pf.Params[i].Name, x.P.qcount)
+		formals = append(formals, TV{n, a.(TV).Ty})
+		decl = append(decl, "("+n+" "+sorts[i]+")")
+	}
+	reads, ok := x.opReads[tkey]
+	if !ok {
+		saved := x.readLog
+		x.readLog = map[string]bool{}
+		evalBody(e, formals)
+		reads = sortedKeys(x.readLog)
+		x.readLog = saved
+		x.opReads[tkey] = reads
+	}
+	skey := tkey
+	for _, k := range reads {
+		skey += "#" + x.hget(e.cur, k)
+	}
+	sym, ok := x.opSyms[skey]
+	if !ok {
+		sym = fmt.Sprintf("|op:%s#%d|", pf.Name, len(x.opSyms))
+		x.opSyms[skey] = sym
+		x.reg.declare(sym, "("+strings.Join(sorts, " ")+") Bool")
+		body := evalBody(e, formals)
+		var fs []string
+		for _, f := range formals {
+			fs = append(fs, f.(TV).T)
+		}
+		app := "(" + sym + " " + strings.Join(fs, " ") + ")"
+		x.reg.axiom(sym, "def", fmt.Sprintf("(forall (%s) (! (= %s %s) :pattern (%s)))", strings.Join(decl, " "), app, body, app))
+	}
+	return boolTV("(" + sym + " " + strings.Join(argTerms, " ") + ")")
 }
 
 func valType(v Val) types.Type {
@@ -1055,12 +1164,14 @@ func (e *Env) quant(q *Quant) Val {
 	b1, _, d1, t1 := autoTrigger(body, append([]string(nil), names...), append([]string(nil), decl...), false)
 	out := render(b1, d1, t1)
 	if b2, _, d2, t2 := autoTrigger(body, append([]string(nil), names...), append([]string(nil), decl...), true); b2 != b1 && len(t2) > 0 {
+		v2 := render(b2, d2, t2)
 		if len(t1) == 0 {
-			out = render(b2, d2, t2)
+			out = v2
 		} else if q.All {
-			out = and(out, render(b2, d2, t2))
+			altVariant[out] = v2
+			out = and(out, v2)
 		} else {
-			out = or(out, render(b2, d2, t2))
+			out = or(out, v2)
 		}
 	}
 	return boolTV(out)
@@ -1163,6 +1274,25 @@ func (n *sx) hasInterpreted(vars []string) bool {
 		return false
 	}
 	h := n.head()
+	// an offset index (+ C v), C closed, is tolerated inside patterns: the generator builds every
+	// slice index in exactly this shape, so syntactic matching finds it
+	if false && h == "+" && len(n.kids) == 3 && n.kids[2].kids == nil {
+		isVar := false
+		for _, v := range vars {
+			if n.kids[2].atom == v {
+				isVar = true
+			}
+		}
+		closed := true
+		for _, v := range vars {
+			if n.kids[1].contains(v) {
+				closed = false
+			}
+		}
+		if isVar && closed {
+			return false
+		}
+	}
 	if interpretedHeads[h] || h == "" {
 		// arithmetic over bound variables spoils E-matching; constants are fine
 		for _, v := range vars {
